@@ -12,6 +12,7 @@ import RtcModel.Lemmas.C15Rtp
 import RtcModel.Lemmas.C15Ext
 import RtcModel.Lemmas.C15Rtcp
 import RtcModel.Lemmas.C15NackBuf
+import RtcModel.Lemmas.C15Utf8
 
 namespace RtcModel.Theorems.C15
 open RtcModel.C15 RtcModel.Generated
@@ -236,7 +237,7 @@ marshaller accepts (inside `Dom`: Rust-type invariants, SDES item type ≠ END, 
 length field), parsing the bytes succeeds, yields the same number of packets of the same types, and
 each packet is the explicit canonical form `canon p` of what was sent (saturated loss count, BYE reason
 cut at 255 bytes, NACK list in wire order, REMB rounded to 18 significant bits, TWCC reference time mod
-2^24 and payload zero-extended to 32 bits). -/
+2^24). -/
 theorem rtcp_marshal_canonical (ps : List Rtcp) (hd : ∀ p ∈ ps, Dom p) (bs : Bytes)
     (hm : marshalCompound ps = .ok bs) : parseCompound bs = .ok (ps.map canon) := by
   induction ps generalizing bs with
@@ -339,11 +340,13 @@ theorem rtcp_parse_marshal_remb (s : UInt32) (br : Nat) (ss : List UInt32) (hn :
     ∃ bs, marshalCompound [.remb s br ss] = .ok bs ∧ parseCompound bs = .ok [.remb s br ss] :=
   rtcp_compound_roundtrip _ (by intro p hp; simp only [List.mem_singleton] at hp; subst hp; exact ⟨hn, hb, hrep⟩)
 
-/-- **TWCC**: 24-bit reference time, 32-bit aligned opaque status/delta payload -/
+/-- **TWCC**: 24-bit reference time and an opaque status/delta payload of ANY length (an unaligned
+payload is carried with RTCP padding since the `fix:` commit; before it the payload came back
+zero-extended) -/
 theorem rtcp_parse_marshal_twcc (s m : UInt32) (b c : UInt16) (r : UInt32) (f : UInt8) (pl : Bytes)
-    (hr : r.toNat < 16777216) (hal : pl.length % 4 = 0) (hn : pl.length ≤ 200000) :
+    (hr : r.toNat < 16777216) (hn : pl.length ≤ 200000) :
     ∃ bs, marshalCompound [.twcc s m b c r f pl] = .ok bs ∧ parseCompound bs = .ok [.twcc s m b c r f pl] :=
-  rtcp_compound_roundtrip _ (by intro p hp; simp only [List.mem_singleton] at hp; subst hp; exact ⟨hr, hal, hn⟩)
+  rtcp_compound_roundtrip _ (by intro p hp; simp only [List.mem_singleton] at hp; subst hp; exact ⟨hr, hn⟩)
 
 example : Rtcp.WF (.remb 1 750000 [2, 3]) := by
   refine ⟨by decide, by decide, ?_⟩
@@ -433,6 +436,17 @@ theorem rtcp_marshal_identity_all_witness :
   have h3 : [p] = [p].map canon := by injection h2
   revert h3
   decide
+
+/-! ### text fields -/
+
+/-- **utf8_valid_lossy_id**: the hypothesis `lossy t = t` used for SDES / BYE text above is implied by
+RFC 3629 well-formedness — which every Rust `String` satisfies — so the round-trip theorems apply to
+every logical packet the Rust types can hold. -/
+theorem utf8_valid_lossy_id (bs : Bytes) (h : utf8Valid bs = true) : lossy bs = bs :=
+  lossy_of_valid _ bs rfl h
+
+example : utf8Valid [0x75, 0x73, 0x65, 0x72, 0x40, 0xC3, 0xA9, 0xE6, 0xBC, 0xA2, 0xF0, 0x9F, 0x98, 0x80] = true := by decide
+example : utf8Valid [0xC0, 0x80] = false ∧ utf8Valid [0xED, 0xA0, 0x80] = false ∧ utf8Valid [0xE6, 0xBC] = false := by decide
 
 /-! ### NACK send buffer and receiver gap detection (`src/peer_connection.rs`) -/
 
